@@ -8,6 +8,7 @@ C03.3  explicit throw census in those methods
 C03.4  the input is never mutated
 C03.5  the two objectKeyOrder branches use the same declared-key membership test
 """
+import re
 import tsast
 from tsast import walk, s, unparen, method_call
 from rules import ts_common
@@ -84,23 +85,26 @@ def run(cx, rep):
         ok = len(calls) == 1 and [s(a["expression"]) for a in calls[0]["arguments"]] == ps[:2]
         rets = [n for n in tsast.walk_no_nested_fn(p["body"]) if n["type"] == "ReturnStatement"]
         throws = [n for n in tsast.walk_no_nested_fn(p["body"]) if n["type"] == "ThrowStatement"]
-        ifs = [n for n in walk(p) if n["type"] == "IfStatement"]
-        ok = ok and len(rets) == 1 and s(rets[0]["argument"]).endswith(".data") and len(ifs) == 1 and s(ifs[0]["test"]).endswith(".success") \
-            and any(x is rets[0] for x in walk(ifs[0]["consequent"])) and len(throws) == 1 and s(throws[0]["argument"]).startswith("new Error(")
+
+        def holds(fn_, node_, pred, pol):
+            return any(pred(c_) and p_ == pol for c_, p_ in ts_common.known_conditions(fn_, node_))
+        succ = lambda c_: c_.endswith(".success") or c_.endswith(".success?")
+        ok = ok and len(rets) == 1 and s(rets[0]["argument"]).endswith(".data") and holds(p, rets[0], succ, True) \
+            and len(throws) == 1 and s(throws[0]["argument"]).startswith("new Error(") and (holds(p, throws[0], succ, False) or (
+                # `if (r.success) return r.data; throw ..`: the throw is what remains
+                any(c_ for c_, p_ in [(0, 0)]) and not ts_common.known_conditions(p, throws[0]) and holds(p, rets[0], succ, True)
+                and rets[0]["span"]["start"] < throws[0]["span"]["start"]))
         rep.ob("C03.1", "parse", ok, "parse must return safeParse(input, options).data exactly when .success and otherwise throw a new Error", mod.loc(p),
                sample={"returns": [s(r["argument"]) for r in rets], "throws": [s(t["argument"])[:40] for t in throws]})
         sp = fc.methods["safeParse"]["function"]
         sps = ts_common.fn_params(sp)
         v = [n for n in walk(sp) if n["type"] == "CallExpression" and s(n["callee"]) == "this.validate"]
         ok = len(v) == 1 and [s(a["expression"]) for a in v[0]["arguments"]] == sps[:2]
-        ifs = [n for n in walk(sp) if n["type"] == "IfStatement"]
         pav = [n for n in walk(sp) if n["type"] == "CallExpression" and method_call(n) and method_call(n)[1] == "parseAfterValidation"]
         rde = [n for n in walk(sp) if n["type"] == "CallExpression" and method_call(n) and method_call(n)[1] == "reportDecodeError"]
-        ok = ok and len(ifs) == 1 and len(pav) == 1 and len(rde) == 1 and any(x is pav[0] for x in walk(ifs[0]["consequent"])) and \
-            not any(x is rde[0] for x in walk(ifs[0]["consequent"])) and s(pav[0]["arguments"][1]["expression"]) == sps[0] and s(rde[0]["arguments"][1]["expression"]) == sps[0]
-        al = ts_common.local_aliases(sp)
-        cond = s(ifs[0]["test"]) if ifs else ""
-        ok = ok and cond in al and any(x is v[0] for x in walk(al[cond]))
+        isval = lambda c_: v and c_ == s(v[0])
+        ok = ok and len(pav) == 1 and len(rde) == 1 and s(pav[0]["arguments"][1]["expression"]) == sps[0] and s(rde[0]["arguments"][1]["expression"]) == sps[0] \
+            and holds(sp, pav[0], isval, True) and holds(sp, rde[0], isval, False)
         rep.ob("C03.1", "safeParse", ok, "safeParse must branch on validate(input, options) and call parseAfterValidation only on success and reportDecodeError only on failure, for the same input", mod.loc(sp))
         # both contexts use the same strictness value
         objs = [n for n in walk(sp) if n["type"] == "ObjectExpression" and any(tsast.prop_key(pp["key"]) == "disallowExtraProperties" if pp["type"] == "KeyValueProperty" else pp.get("value") == "disallowExtraProperties" for pp in n["properties"])]
@@ -237,6 +241,96 @@ def run(cx, rep):
                    "%s: the two environment branches of a value-kind test differ in %s: a value kind is treated as an opaque leaf in one runtime and merged key by key in the other (typed arrays, Dates lose their kind in parse output)" % (fname, sorted(diff)),
                    mod.loc(n), sample={"test": test, "then": sorted(a), "else": sorted(b)})
     rep.floor("C03.6", "environment-dependent kind tests in deepmerge", n_pred, 1)
+    # ---------------------------------------------------------------- C03.7
+    rep.rule("C03.7", "index-signature validators are applied to undeclared keys only")
+    # In the object class a declared property wins over the index signature: validate / parseAfterValidation /
+    # reportDecodeError may hand a key to the index-signature validators only when it is known NOT to be a declared
+    # key (a guard with `continue`, or a key list filtered by the negated membership test).  Otherwise the projection of
+    # a declared property is overwritten by the (wider, lossy) index-signature projection, or reported twice.
+    n_ix = 0
+    for cname, c in sorted(fam.classes.items()):
+        ixf = ts_common.index_signature_field(fam, cname)
+        pfs = record_fields(fam, cname)
+        if ixf is None or not pfs:
+            continue
+        for mname in METHODS:
+            m = c.methods.get(mname)
+            if m is None or m["function"].get("body") is None:
+                continue
+            fn = m["function"]
+            al = ts_common.local_aliases(fn)
+            al_all = dict(al)
+
+            def is_declared_test(txt, key):
+                txt = txt.replace(" ", "")
+                for pf in pfs:
+                    if txt in ("hasOwn.call(this.%s,%s)" % (pf, key), "Object.prototype.hasOwnProperty.call(this.%s,%s)" % (pf, key), "Object.hasOwn(this.%s,%s)" % (pf, key), "(%s in this.%s)" % (key, pf)):
+                        return True
+                mm = re.match(r"^(\w+)\.includes\(%s\)$" % re.escape(key), txt)
+                if mm and mm.group(1) in al_all and any(("Object.keys(this.%s)" % pf) in s(al_all[mm.group(1)]) for pf in pfs):
+                    return True
+                return False
+            # iterations over the index signatures: `for (const p of this.<ixf>)` or `this.<ixf>.some/forEach/..((p) => ..)`,
+            # in the method itself or in private helpers it calls (seen with arguments substituted)
+            nodes = list(tsast.walk_inl(mod, cname, fn))
+            iters = []   # (node that contains the per-signature code, signature variable)
+            for x in nodes:
+                if x["type"] == "ForOfStatement" and s(x["right"]) == "this.%s" % ixf and x["left"]["type"] == "VariableDeclaration":
+                    iters.append((x, x["body"], x["left"]["declarations"][0]["id"].get("value")))
+                elif x["type"] == "CallExpression":
+                    mc = method_call(x)
+                    if mc and s(mc[0]) == "this.%s" % ixf and mc[1] in ts_common.ITER_METHODS and mc[2] and mc[2][0].get("type") in ("ArrowFunctionExpression", "FunctionExpression"):
+                        cps = ts_common.fn_params(mc[2][0])
+                        if cps and cps[0]:
+                            iters.append((x, mc[2][0], cps[0]))
+            # all local aliases, including those of inlined helpers
+            al_all = dict(al)
+            for x in nodes:
+                if x["type"] == "VariableDeclarator" and x["id"].get("type") == "Identifier" and x.get("init") is not None:
+                    al_all.setdefault(x["id"]["value"], x["init"])
+
+            def filtered_source(src, depth=0):
+                """the expression yields only keys for which the declared-membership test is false"""
+                src = unparen(src)
+                if src.get("type") == "Identifier" and src["value"] in al_all and depth < 4:
+                    return filtered_source(al_all[src["value"]], depth + 1)
+                for fc in tsast.walk_inl(mod, cname, src):
+                    mc = method_call(fc) if fc["type"] == "CallExpression" else None
+                    if mc and mc[1] == "filter" and mc[2] and mc[2][0].get("type") in ("ArrowFunctionExpression", "FunctionExpression"):
+                        cb = mc[2][0]
+                        cps = ts_common.fn_params(cb)
+                        body = cb["body"]
+                        e = body if body.get("type") != "BlockStatement" else next((r_["argument"] for r_ in walk(body) if r_["type"] == "ReturnStatement"), None)
+                        e = unparen(e) if e else {}
+                        if e.get("type") == "UnaryExpression" and e["operator"] == "!" and cps and is_declared_test(s(e["argument"]), cps[0]):
+                            return True
+                return False
+            for site, body_, pvar in iters:
+                keys_used = set()
+                for x in tsast.walk_inl(mod, cname, body_):
+                    mc = method_call(x) if x["type"] == "CallExpression" else None
+                    if mc and s(mc[0]) == "%s.key" % pvar and len(mc[2]) >= 2:
+                        keys_used.add(s(mc[2][1]))
+                for key in sorted(keys_used):
+                    n_ix += 1
+                    ka = ts_common.known_atoms(fn, site)
+                    ok = any(v_ is False and is_declared_test(a_, key) for a_, v_ in ka.items())
+                    if not ok:
+                        # the key ranges over a filtered list: an enclosing for-of / iteration callback binds it
+                        for outer in nodes:
+                            if not any(x is site for x in walk(outer)):
+                                continue
+                            if outer["type"] == "ForOfStatement" and outer["left"]["type"] == "VariableDeclaration" and outer["left"]["declarations"][0]["id"].get("value") == key:
+                                ok = ok or filtered_source(outer["right"])
+                            elif outer["type"] == "CallExpression":
+                                mc = method_call(outer)
+                                if mc and mc[1] in ts_common.ITER_METHODS and mc[2] and mc[2][0].get("type") in ("ArrowFunctionExpression", "FunctionExpression") \
+                                        and (ts_common.fn_params(mc[2][0]) or [None])[0] == key and any(x is site for x in walk(mc[2][0])):
+                                    ok = ok or filtered_source(mc[0])
+                    rep.ob("C03.7", "%s.%s/%s" % (cname, mname, key), ok,
+                           "%s.%s applies the index-signature validators to key `%s` without knowing that it is not a declared property: a declared property is then also parsed / reported through the index signature (its projection is overwritten)" % (cname, mname, key),
+                           mod.loc(site), sample={"method": mname, "key": key})
+    rep.floor("C03.7", "index-signature loops in the object class", n_ix, 3)
     # ---------------------------------------------------------------- C03.5
     rep.rule("C03.5", "objectKeyOrder branches agree on the declared-key membership test")
     for cname, mname, fn in ts_common.family_methods(fam, ("parseAfterValidation",)):
